@@ -95,8 +95,24 @@ def slot_problem(ftype, v):
     return "unmapped-type"
 
 
+def is_grouped(rec):
+    import flow.record.base as base
+
+    return isinstance(rec, base.GroupedRecord)
+
+
+def compare_slots(rec):
+    """Slots the comparison looks at: every slot of a plain record; for a grouped record the flat fields of its descriptor
+    (what 'stored faithfully' can mean for it: the same flat values under the group's flat type)."""
+    if is_grouped(rec):
+        return [(str(t), str(n)) for t, n in rec._desc.get_field_tuples()]
+    return all_slots(rec._desc)
+
+
 def record_problem(rec):
     """-> None (mappable) or (reason, index of the first slot that cannot be mapped, in slot order)."""
+    if is_grouped(rec):
+        return ("grouped", None)
     for i, (t, n) in enumerate(all_slots(rec._desc)):
         why = slot_problem(t, getattr(rec, n))
         if why:
@@ -139,9 +155,9 @@ def record_diffs(written, read):
     if dw[1] != dr[1]:
         return ["field list %r != %r" % (dw[1], dr[1])]
     out = []
-    if tuple(written.__slots__) != tuple(read.__slots__):
+    if not is_grouped(written) and tuple(written.__slots__) != tuple(read.__slots__):
         return ["slots %r != %r" % (written.__slots__, read.__slots__)]
-    for t, n in all_slots(written._desc):
+    for t, n in compare_slots(written):
         w, r = getattr(written, n), getattr(read, n)
         if not value_equal(t, w, r):
             out.append("%s (%s): written %s, read %s" % (n, t, _show(t, w), _show(t, r)))
@@ -191,9 +207,13 @@ def raw_value_equal(ftype, w, raw):
 def raw_diffs(written, raw):
     if not isinstance(raw, dict):
         return ["raw datum is %s, not a record" % type(raw).__name__]
-    slots = all_slots(written._desc)
+    slots = compare_slots(written)
     out = []
-    if sorted(raw.keys()) != sorted(n for _, n in slots):
+    if is_grouped(written):
+        missing = [n for _, n in slots if n not in raw]
+        if missing:
+            return ["raw record lacks the flat fields %r" % missing]
+    elif sorted(raw.keys()) != sorted(n for _, n in slots):
         out.append("raw record has fields %r, expected %r" % (sorted(raw.keys()), sorted(n for _, n in slots)))
         return out
     for t, n in slots:
@@ -390,6 +410,20 @@ def variant_descriptor(rng, desc, kind):
         seen.add(nn)
         uniq.append((tt, nn))
     return RecordDescriptor(name, uniq)
+
+
+def make_grouped(rng, desc, n_members, same_name, thorough=False):
+    """GroupedRecord whose first member is a record of `desc` (all values mappable); further members come from other
+    descriptors over the mapped types with field names that cannot collide.  same_name: the group is named like `desc`
+    (with one member its flat descriptor then EQUALS `desc`, so a 'second record type' test does not see it)."""
+    from flow.record import GroupedRecord, RecordDescriptor
+
+    members = [make_record(rng, desc, bad=False, thorough=thorough)]
+    for i in range(1, n_members):
+        types = [rng.choice(MAPPED_NO_DIGEST) for _ in range(rng.choice([1, 2, 3]))]
+        d = RecordDescriptor(gen.rand_typename(rng), [(t, "g%d_f%d" % (i, j)) for j, t in enumerate(types)])
+        members.append(make_record(rng, d, bad=False, thorough=thorough))
+    return GroupedRecord(str(desc.name) if same_name else gen.rand_typename(rng), members)
 
 
 VARIANT_KINDS = ("other-name", "renamed-field", "extra-field", "dropped-field", "same-avro-type", "reordered")
